@@ -1,0 +1,17 @@
+#pragma once
+
+// Verification hooks: only compiled when COLOQUINTE_VERIF is defined.
+// A test harness can install call-outs that are invoked at the beginning and
+// at the end of NetModel::solveWithPenalty (the two concurrent solves of
+// GlobalPlacer::runLB) in order to observe and delay either of them.
+#ifdef COLOQUINTE_VERIF
+#include <atomic>
+
+namespace coloquinte {
+namespace verif {
+using SolveHook = void (*)(const void *model);
+extern std::atomic<SolveHook> onSolveBegin;
+extern std::atomic<SolveHook> onSolveEnd;
+}  // namespace verif
+}  // namespace coloquinte
+#endif
